@@ -107,6 +107,7 @@ type c13Layout struct {
 	ExpandCtx   []int  // context line indexes written as an identical -/+ pair
 	CollapseEq  bool   // identical adjacent -/+ pairs written once as context
 	Respace     int    // 0: as is; n>0: n blanks between every two tokens of a body line (leading indentation kept)
+	DescIndent  string // white space in front of the '#' of description lines
 	SplitCommon bool   // "-foo(REST" "+bar(REST" written as "-foo(" "+bar(" " REST": the common tail becomes a context line
 }
 
@@ -246,7 +247,7 @@ func c13Render(changes []c13Change, layouts []c13Layout) (string, [][]string) {
 			desc = lo.Desc
 		}
 		for _, d := range desc {
-			b.WriteString("# " + d + "\n")
+			b.WriteString(lo.DescIndent + "# " + d + "\n")
 		}
 		descs = append(descs, desc)
 		name := ch.Name
@@ -503,6 +504,10 @@ func c13DrawLayout(rt *rapid.T, ch c13Change, idx int, ops map[string]bool) c13L
 	if rapid.IntRange(0, 3).Draw(rt, l("collapse")) == 0 {
 		lo.CollapseEq = true
 		ops["pair-as-context"] = true
+	}
+	if rapid.IntRange(0, 3).Draw(rt, l("descIndent")) == 0 {
+		lo.DescIndent = rapid.SampledFrom([]string{"  ", "\t", " "}).Draw(rt, l("descIndentBy"))
+		ops["indent-description"] = true
 	}
 	if rapid.IntRange(0, 2).Draw(rt, l("splitCommon")) == 0 {
 		lo.SplitCommon = true
